@@ -32,6 +32,7 @@ func runC10(c *core.Ctx) {
 	ruleInStreamGuards(c, "C10-R4")
 	ruleStringEncryptionUnconditional(c, "C10-R4")
 	rulePlaintextExemptions(c)
+	ruleUserKeyComparison(c, "C10-R8")
 	ruleNoArgMutation(c, "C10-R7") // an in-place cipher turns the second write of the same string into plaintext
 	ruleTrailerEncrypt(c)
 	ruleRefLimits(c, "C10-R6")
@@ -1105,5 +1106,47 @@ func ruleEncryptDictTables(c *core.Ctx) {
 		for _, k := range []int64{1, 2, 4, 5} {
 			o.Require(rv[k], "parseEncryptDict has no case for V=%d", k)
 		}
+	})
+}
+
+// ruleUserKeyComparison (C10-R8): Algorithm 6: for revision 3 and 4 only the
+// first 16 bytes of /U are significant (the other 16 are arbitrary padding
+// that other producers fill with anything); revision 2 compares all 32.  In
+// authenticateUser every comparison of the computed with the stored /U either
+// slices both operands to [:16] or is dominated by R == 2.
+func ruleUserKeyComparison(c *core.Ctx, rule string) {
+	c.Check(rule, "pdf.(*stdSecHandler).authenticateUser/compare", "the user-password check compares all of /U only for revision 2; for revisions 3 and 4 it compares the first 16 bytes", func(o *core.Ob) {
+		fn := c.Prog.Func("pdf", "(*stdSecHandler).authenticateUser")
+		g := fn.Graph()
+		info := fn.Info()
+		n := 0
+		for _, cv := range callVertices(g, "crypto/subtle.ConstantTimeCompare", "bytes.Equal") {
+			n++
+			o.Count(1)
+			o.At(fn.Site(cv.Call, "compares /U"))
+			sliced := 0
+			for _, a := range cv.Call.Args {
+				if sl, ok := ast.Unparen(a).(*ast.SliceExpr); ok && sl.Low == nil && sl.High != nil {
+					if k, ok := core.IntConst(info, sl.High); ok && k == 16 {
+						sliced++
+					}
+				}
+			}
+			if sliced == 2 {
+				continue
+			}
+			isR2 := g.GuardedBy(cv.V, func(a core.Atom) bool {
+				cmp, ok := a.AsCmp()
+				if !ok || cmp.Op != token.EQL || !strings.HasSuffix(core.ExprStr(cmp.L), ".R") {
+					return false
+				}
+				k, isK := core.IntConst(info, cmp.R)
+				return isK && k == 2
+			})
+			if !isR2 {
+				o.FailAt(fn.Site(cv.Call, ""), "%s: %s compares the whole /U entry although the revision may be 3 or 4: conforming files whose padding bytes are not zero are rejected", c.Prog.Pos(cv.Call.Pos()), c.Prog.Src(cv.Call))
+			}
+		}
+		o.Require(n >= 1, "no comparison of /U found")
 	})
 }
